@@ -2,4 +2,4 @@
 #include "drv_matmul.h"
 #define MM_FIXED_ACT false
 #define MM_FIXED_FN build_group_fixed_p
-#include "drv_matmul_fixed.inc"
+#include "drv_matmul_fixed.h"
